@@ -425,6 +425,7 @@ def check_convert(ck):
 
 
 def run(ck):
+    ck._orig_repo = getattr(ck, "_orig_repo", None) or ck.repo
     ck.repo = normalized(ck.repo, NORM_MODULES)  # alias / named-boolean / temporary / setter-helper normalisation (vt/x_syncnorm.py)
     ck.rule("C37.ctx-run", "user code (func, next, gen.send/throw, Runner.run, handle_yield at construction) is entered only through ctx_run = copy_context().run")
     ck.rule("C37.outcome", "every advance is covered by a StopIteration/Return handler producing the result from the exception value and by an Exception handler storing the error in the result future")
